@@ -15,7 +15,10 @@
 (***************************************************************************)
 EXTENDS Integers, Sequences, FiniteSets
 
-Fresh == "zz_verif_new"        \* a name that occurs nowhere in any schema
+\* Names that occur nowhere in any schema.  verify() walks sorted listings of names, so WHERE a new name sorts matters:
+\* one that sorts before every name of the schemas, one in the middle, one after all of them (and after "sqlite_...").
+FreshNames == {"AA_verif_new", "Mm_verif_new", "zz_verif_new"}
+Fresh == "zz_verif_new"
 NoDflt == "<NULL>"
 
 ColNames(t) == {t.cols[k].name : k \in DOMAIN t.cols}
@@ -24,19 +27,21 @@ Created(inv) == {i \in inv.indices : i.origin = "c"}      \* indices made by CRE
 
 \* All single-element mutations of an inventory
 Mutations(inv) ==
-       {[k |-> "drop_table", db |-> t.db, t |-> t.name, c |-> "", i |-> ""] : t \in inv.tables}
-  \cup {[k |-> "rename_table", db |-> t.db, t |-> t.name, c |-> "", i |-> ""] : t \in inv.tables}
-  \cup {[k |-> "add_table", db |-> d, t |-> Fresh, c |-> "", i |-> ""] : d \in {t.db : t \in inv.tables}}
-  \cup {[k |-> "drop_view", db |-> v.db, t |-> v.name, c |-> "", i |-> ""] : v \in inv.views}
-  \cup {[k |-> "rename_view", db |-> v.db, t |-> v.name, c |-> "", i |-> ""] : v \in inv.views}
-  \cup {[k |-> "add_view", db |-> d, t |-> Fresh, c |-> "", i |-> ""] : d \in {t.db : t \in inv.tables}}
-  \cup UNION {{[k |-> kind, db |-> t.db, t |-> t.name, c |-> cn, i |-> ""] :
-                  kind \in {"drop_column", "rename_column", "change_type", "change_notnull", "change_default", "change_pk"},
+       {[k |-> "drop_table", db |-> t.db, t |-> t.name, c |-> "", i |-> "", n |-> Fresh] : t \in inv.tables}
+  \cup {[k |-> "rename_table", db |-> t.db, t |-> t.name, c |-> "", i |-> "", n |-> f] : t \in inv.tables, f \in FreshNames}
+  \cup {[k |-> "add_table", db |-> d, t |-> f, c |-> "", i |-> "", n |-> f] : d \in {t.db : t \in inv.tables}, f \in FreshNames}
+  \cup {[k |-> "drop_view", db |-> v.db, t |-> v.name, c |-> "", i |-> "", n |-> Fresh] : v \in inv.views}
+  \cup {[k |-> "rename_view", db |-> v.db, t |-> v.name, c |-> "", i |-> "", n |-> f] : v \in inv.views, f \in FreshNames}
+  \cup {[k |-> "add_view", db |-> d, t |-> f, c |-> "", i |-> "", n |-> f] : d \in {t.db : t \in inv.tables}, f \in FreshNames}
+  \cup UNION {{[k |-> kind, db |-> t.db, t |-> t.name, c |-> cn, i |-> "", n |-> Fresh] :
+                  kind \in {"drop_column", "change_type", "change_notnull", "change_default", "change_pk"},
                   cn \in ColNames(t)} : t \in inv.tables}
-  \cup {[k |-> "add_column", db |-> t.db, t |-> t.name, c |-> Fresh, i |-> ""] : t \in inv.tables}
-  \cup UNION {{[k |-> kind, db |-> x.db, t |-> x.table, c |-> "", i |-> x.name] :
-                  kind \in {"drop_index", "rename_index", "change_index_unique", "change_index_columns"}} : x \in Created(inv)}
-  \cup {[k |-> "add_index", db |-> t.db, t |-> t.name, c |-> "", i |-> Fresh] : t \in inv.tables}
+  \cup UNION {{[k |-> "rename_column", db |-> t.db, t |-> t.name, c |-> cn, i |-> "", n |-> f] : cn \in ColNames(t), f \in {"AA_verif_new", "zz_verif_new"}} : t \in inv.tables}
+  \cup {[k |-> "add_column", db |-> t.db, t |-> t.name, c |-> Fresh, i |-> "", n |-> Fresh] : t \in inv.tables}
+  \cup UNION {{[k |-> kind, db |-> x.db, t |-> x.table, c |-> "", i |-> x.name, n |-> Fresh] :
+                  kind \in {"drop_index", "change_index_unique", "change_index_columns"}} : x \in Created(inv)}
+  \cup {[k |-> "rename_index", db |-> x.db, t |-> x.table, c |-> "", i |-> x.name, n |-> f] : x \in Created(inv), f \in FreshNames}
+  \cup {[k |-> "add_index", db |-> t.db, t |-> t.name, c |-> "", i |-> f, n |-> f] : t \in inv.tables, f \in {"AA_verif_new", "zz_verif_new"}}
 
 MapCols(t, F(_)) == [t EXCEPT !.cols = [k \in DOMAIN t.cols |-> F(t.cols[k])]]
 Filter(s, P(_)) == SelectSeq(s, P)
@@ -49,14 +54,14 @@ Apply(m, inv) ==
     IN
     CASE m.k = "drop_table" -> [inv EXCEPT !.tables = {t \in inv.tables : ~Is(t)},
                                            !.indices = {x \in inv.indices : ~(x.db = m.db /\ x.table = m.t)}]
-      [] m.k = "rename_table" -> [inv EXCEPT !.tables = T(Is, LAMBDA t : [t EXCEPT !.name = Fresh])]
-      [] m.k = "add_table" -> [inv EXCEPT !.tables = @ \cup {[db |-> m.db, name |-> Fresh,
+      [] m.k = "rename_table" -> [inv EXCEPT !.tables = T(Is, LAMBDA t : [t EXCEPT !.name = m.n])]
+      [] m.k = "add_table" -> [inv EXCEPT !.tables = @ \cup {[db |-> m.db, name |-> m.n,
                                    cols |-> <<[name |-> "x", type |-> "INTEGER", notnull |-> 0, dflt |-> NoDflt, pk |-> 0]>>]}]
       [] m.k = "drop_view" -> [inv EXCEPT !.views = {v \in inv.views : ~(v.db = m.db /\ v.name = m.t)}]
-      [] m.k = "rename_view" -> [inv EXCEPT !.views = {IF v.db = m.db /\ v.name = m.t THEN [v EXCEPT !.name = Fresh] ELSE v : v \in inv.views}]
-      [] m.k = "add_view" -> [inv EXCEPT !.views = @ \cup {[db |-> m.db, name |-> Fresh]}]
+      [] m.k = "rename_view" -> [inv EXCEPT !.views = {IF v.db = m.db /\ v.name = m.t THEN [v EXCEPT !.name = m.n] ELSE v : v \in inv.views}]
+      [] m.k = "add_view" -> [inv EXCEPT !.views = @ \cup {[db |-> m.db, name |-> m.n]}]
       [] m.k = "drop_column" -> [inv EXCEPT !.tables = T(Is, LAMBDA t : [t EXCEPT !.cols = Filter(t.cols, LAMBDA c : c.name # m.c)])]
-      [] m.k = "rename_column" -> OnCol(LAMBDA c : [c EXCEPT !.name = Fresh])
+      [] m.k = "rename_column" -> OnCol(LAMBDA c : [c EXCEPT !.name = m.n])
       [] m.k = "change_type" -> OnCol(LAMBDA c : [c EXCEPT !.type = OtherType(c.type)])
       [] m.k = "change_notnull" -> OnCol(LAMBDA c : [c EXCEPT !.notnull = 1 - c.notnull])
       [] m.k = "change_default" -> OnCol(LAMBDA c : [c EXCEPT !.dflt = IF c.dflt = "7" THEN "8" ELSE "7"])
@@ -64,10 +69,10 @@ Apply(m, inv) ==
       [] m.k = "add_column" -> [inv EXCEPT !.tables = T(Is, LAMBDA t : [t EXCEPT !.cols = Append(t.cols,
                                    [name |-> Fresh, type |-> "INTEGER", notnull |-> 0, dflt |-> NoDflt, pk |-> 0])])]
       [] m.k = "drop_index" -> [inv EXCEPT !.indices = {x \in inv.indices : ~IsIx(x)}]
-      [] m.k = "rename_index" -> [inv EXCEPT !.indices = {IF IsIx(x) THEN [x EXCEPT !.name = Fresh] ELSE x : x \in inv.indices}]
+      [] m.k = "rename_index" -> [inv EXCEPT !.indices = {IF IsIx(x) THEN [x EXCEPT !.name = m.n] ELSE x : x \in inv.indices}]
       [] m.k = "change_index_unique" -> [inv EXCEPT !.indices = {IF IsIx(x) THEN [x EXCEPT !.unique = 1 - x.unique] ELSE x : x \in inv.indices}]
       [] m.k = "change_index_columns" -> [inv EXCEPT !.indices = {IF IsIx(x) THEN [x EXCEPT !.cols = Append(x.cols, Fresh)] ELSE x : x \in inv.indices}]
-      [] m.k = "add_index" -> [inv EXCEPT !.indices = @ \cup {[db |-> m.db, name |-> Fresh, table |-> m.t, unique |-> 0, origin |-> "c", cols |-> <<"x">>]}]
+      [] m.k = "add_index" -> [inv EXCEPT !.indices = @ \cup {[db |-> m.db, name |-> m.n, table |-> m.t, unique |-> 0, origin |-> "c", cols |-> <<"x">>]}]
       [] OTHER -> inv
 
 \* every mutation is a structural deviation from the declared schema
